@@ -1746,6 +1746,11 @@ FLOWFUNCS = [
                  ("headers", "val", "list header", None), ("phase", "mutval", "phase", "Phase"), ("w", "writer", "", None)],
          methods={"is_body": "is_body"}, loops={1: dict(fuel="3", panic="model: try_write_prelude out of fuel")},
          rust_ret="Result<(), Error>"),
+    # src/ext.rs: HeaderIterExt::has (the test behind `Connection: close` and `Expect: 100-continue`): some field with that name has that value
+    dict(coq="gen_headers_has", file="src/ext.rs", impl=None, rust="has", kind="plain", bytes_vars=["key", "value"],
+         subst=[(r"self\s*\.filter", "headers.iter().filter")],
+         params=[("headers", "val", "list header", "list"), ("key", "val", "bytes", None), ("value", "val", "bytes", None)],
+         rust_ret="bool"),
     # src/client/amended.rs: the effective header list (caller-added headers first, then the original ones that are not unset) and the
     # accessors built on it; the three containers are lists (ArrayVec / HeaderMap iteration order), names compare as byte strings
     dict(coq="gen_am_headers", file="src/client/amended.rs", impl=r"impl<Body>\s+AmendedRequest<Body>", rust="headers", kind="plain",
